@@ -175,8 +175,8 @@ pub fn plan(property: &str, tier: Tier) -> Option<Plan> {
             jobs.push(g("shapes/pending", "rel", if q { 4 } else { 7 }).armed(&a));
             jobs.push(g("shapes/bindvars", "rel", if q { 6 } else { 8 }).armed(&a));
             jobs.push(g("shapes/readopt", "rel", if q { 4 } else { 7 }).armed(&a));
-            jobs.push(g("shapes/bindvars", "rel", if q { 6 } else { 8 }).armed(&a));
-            jobs.push(g("shapes/readopt", "rel", if q { 4 } else { 7 }).armed(&a));
+            // a bind main that was queued, released and re-adopted in a later round over an unchanged right-hand side
+            jobs.push(g("shapes/binds-started", "rel", if q { 5 } else { 7 }).armed(&a));
             if !q {
                 jobs.push(g("c01/grammar3-maps", "rel", 5).armed(&a));
                 jobs.push(g("c01/grammar3-binds", "rel", 5).armed(&a));
